@@ -124,7 +124,7 @@ var c01Idioms = []idiom{
 }
 
 func checkC01(r *core.Run) {
-	r.Explain = "Decided statically for every CFG path of the anchored functions: (C01.flush) no error of the statements that write the undo log in phase one (FlushUndoLog / InsertUndoLog implementations) is dropped, overwritten or turned into nil — a branch whose undo log was not written must not commit locally; (C01.pure) no function of the undo run consults package-level state that request paths mutate (no memo or remembered answer between rollbacks); (C01.status) the AT BranchRollback returns the 'rollbacked' status constant only where the error of UndoLogManager.RunUndo is known nil and a failure status everywhere else; (C01.errchain) every error-returning call on the call-graph chain RunUndo -> Undo -> GetUndoExecutor -> ExecuteOn (packages undo/*) is propagated or handled by an enumerated idiom, no failed call is followed by a provably-nil return, no deferred closure overwrites the named error result; (C01.tx) the sql.Tx begun by the undo routine is committed on every nil-error return and rolled back on every error return; (C01.delete) Commit is reached only after the undo-log delete (or the finished marker) succeeded; (C01.reverse) the replay loop runs after the log slice was reversed; (C01.dispatch) Insert/Delete/Update undo logs are dispatched to executors whose SQL templates are DELETE/INSERT/UPDATE. NOT decided: that the replayed values equal the pre-transaction rows for any schema/value/configuration (undo(redo(db))==db), SQL text beyond the statement kind, database behaviour."
+	r.Explain = "Decided statically for every CFG path of the anchored functions: (C01.flush) no error of the statements that write the undo log in phase one (FlushUndoLog / InsertUndoLog implementations) is dropped, overwritten or turned into nil — a branch whose undo log was not written must not commit locally; (C01.pure) no function of the undo run consults package-level state that request paths mutate (no memo or remembered answer between rollbacks); (C01.status) the AT BranchRollback returns the 'rollbacked' status constant only where the error of UndoLogManager.RunUndo is known nil and a failure status everywhere else; (C01.errchain) every error-returning call on the call-graph chain RunUndo -> Undo -> GetUndoExecutor -> ExecuteOn (packages undo/*) is propagated or handled by an enumerated idiom, no failed call is followed by a provably-nil return, no deferred closure overwrites the named error result; (C01.tx) the sql.Tx begun by the undo routine is committed on every nil-error return and rolled back on every error return; (C01.delete) Commit is reached only after the undo-log delete (or the finished marker) succeeded; (C01.reverse) the replay loop runs after the log slice was reversed; (C01.dispatch) Insert/Delete/Update undo logs are dispatched to executors whose SQL templates are DELETE/INSERT/UPDATE. (C01.restore) a compensating statement executed inside a loop over the rows of an image is bound with values computed from that row inside the loop; NOT decided: that the replayed values equal the pre-transaction rows for any schema/value/configuration (undo(redo(db))==db), SQL text beyond the statement kind, database behaviour."
 	r.Trusted = []string{"go/types, go/cfg", "database/sql semantics of Tx.Commit/Rollback", "CHA resolution of interface calls over repository types"}
 	r.Assume = []string{"third-party UndoLogManager/UndoExecutor implementations are outside the claim"}
 	u := resolveUndoWorld(r, "C01.anchor")
